@@ -56,3 +56,19 @@ add("C07", "fold-of-generated-dicts oracle over merge executions (orders x buffe
     "pairs of every kind must raise and leave no cooler; integer aggregates beyond int32/uint16/int16/uint8 must raise or "
     "be stored exactly. Probes check the merge partition and epoch disjointness on every real call.",
     "DESIGN.md section 4 C07")
+add("C08", "index-arithmetic reference (ref_coarsen) over executions x schedules; partition probes; real pools with injected delays",
+    "Each generated base cooler (all bin-table families incl. tables whose coarsening looks uniform but is not, both "
+    "modes, 1-2 value columns) is coarsened by the real code for several factors (incl. > bins of a chromosome), chunk "
+    "sizes from 1 and schedules: sequential, real multiprocess pools (2-8 workers, per-task delays, completion orders "
+    "recorded) and CoolerCoarsener under adversarial ordered map functors. Bin table, pixel table, total and mode are "
+    "compared with ref_coarsen; all executions of one base must be content-identical; chains k1,k2 vs k1*k2 and "
+    "coarsen/merge commutation are checked; probes assert chunk edges never split a coarse row.",
+    "DESIGN.md section 4 C08")
+add("C09", "direct-from-base reference oracle on every zoom level + layout/recognition checks; CLI spec expansion oracle",
+    "After the real zoomify_cooler / `cooler zoomify` returns, the level listing, is_multires_file, each base level "
+    "(digest vs its source) and each derived level (vs ref_coarsen computed directly from the base, so the predecessor "
+    "chain used is irrelevant) are checked, plus the schema validator per level; resolution sets cover any order, "
+    "missing base, mixed predecessors, duplicates, non-derivable members (must raise), one or two bases, reused output "
+    "paths, chunk sizes and worker counts; -r spellings are expanded by an independent implementation. A probe checks "
+    "get_multiplier_sequence consistency.",
+    "DESIGN.md section 4 C09")
